@@ -67,6 +67,13 @@ def _consume_shapes():
         CONSUME.append(c01.mkq("setof", (Y, X), c))
     F = ("var", "f")
     CONSUME.append(c01.mkq("setof", (X, F), ("cmp", "ge", F, L(0)), extra=(("flat", "f", A(X, "tags")),)))
+    # flattened LAZY iterables: an attribute that produces a one-shot generator, and a one-shot generator itself
+    for c in (("cmp", "ge", F, L(0)), ("cmp", "ne", F, L(9)), ("cmp", "ge", F, L(2)), None):
+        CONSUME.append(c01.mkq("setof", (X, F), c, extra=(("flat", "f", A(X, "lazy")),)))
+    for kind in ("gen", "iter", "map", "custom"):
+        G = ("genlit", (0, 3, 1, 4, 2, 5, 0, 0), kind)
+        for c in (("cmp", "ge", F, L(0)), ("cmp", "ge", F, L(3)), ("cmp", "lt", F, L(2))):
+            CONSUME.append(("query", "entity", (F,), c, (("flat", "f", G),)))
     return CONSUME
 
 
@@ -279,7 +286,7 @@ def run_consume(case, res):
     # fresh full run
     env = Env()
     try:
-        built = eqlfront.build(q, env.world, domain_wrap=env.wrap)
+        built = eqlfront.build(build_genlit(q, env), env.world, domain_wrap=env.wrap)
         full = [tuple(getattr(v, "name", v) for v in row) for row in built.rows()]
     except Exception as e:
         res.failures.append(Failure("crash", f"{label}: {type(e).__name__}: {e}"))
@@ -289,7 +296,7 @@ def run_consume(case, res):
     feats = {"consume"}
     for k in range(0, len(full) + 1):
         env = Env()
-        built = eqlfront.build(q, env.world, domain_wrap=env.wrap)
+        built = eqlfront.build(build_genlit(q, env), env.world, domain_wrap=env.wrap)
         arm()
         it = iter(built.query.evaluate())
         got = []
@@ -330,6 +337,27 @@ def run_consume(case, res):
             res.failures.append(Failure("read-ahead", f"{label}: after {k} result(s) every selected variable's generator was read "
                                                       f"past the last element needed: (variable, pulled, needed) = {detail}"))
             break
+        # laziness of flattened lazy iterables: the inner generator that produced the k-th result has handed out no more
+        # than the elements up to the one that IS the k-th result
+        flat = [d for d in q[4] if d[0] == "flat"]
+        if flat and (flat[0][2] == A(X, "lazy") or flat[0][2][0] == "genlit"):
+            ref_cond = (lambda v: True) if q[3] is None else (lambda v, c=q[3]: {"ge": v >= c[3][1], "ne": v != c[3][1], "lt": v < c[3][1]}[c[1]])
+            if flat[0][2][0] == "genlit":
+                source, values, m = "literal", list(flat[0][2][1]), len(got)
+            else:
+                xk = got[-1][0]
+                source = "inner:" + xk
+                values = [it_.tags for it_ in env.items if object.__getattribute__(it_, "name") == xk][0]
+                m = sum(1 for r in got if r[0] == xk)
+            hits = [i + 1 for i, v in enumerate(values) if ref_cond(v)]
+            needed = hits[m - 1]
+            feats.add("flatten-lazy")
+            if needed < len(values):
+                feats.add("flatten-lazy:stops-early")
+            if pulled.get(source, 0) > needed:
+                res.failures.append(Failure("flatten-read-ahead", f"{label}: after {k} result(s) the flattened lazy iterable {source} "
+                                                                  f"had handed out {pulled.get(source, 0)} elements, the results need {needed}"))
+                break
         feats.add("k>0")
     res.features = feats
     res.outcome_key = ("consume", len(full))
@@ -362,7 +390,7 @@ def cluster_key(case, f):
 
 def finish(run):
     if run.exhaustive and not run.failures:
-        for k in ("build:an", "build:the", "build:rule", "consume", "k>0"):
+        for k in ("build:an", "build:the", "build:rule", "consume", "k>0", "flatten-lazy", "flatten-lazy:stops-early"):
             if not run.features.get(k):
                 raise HarnessError("vacuous: " + k)
 
